@@ -648,6 +648,7 @@ def check_C12(ck):
         for slot in (range(6) if k_ == mont_specials()[0] or thorough else (0, 3)):
             cs = [F2.rand(rng) for _ in range(6)]; cs[slot] = (k_, 0)
             els.append(("mont-special-coefficient", ((cs[0], cs[1], cs[2]), (cs[3], cs[4], cs[5]))))
+    els += [("related-coefficients", a) for (_, a) in related_coeff_f12(rng, with_zero=False)]
     zp = zero_pattern_f12(rng)
     zres = ck.run([("fe/zero-pattern", "finalexp %s" % O.show_f12(a)) for (_, a) in zp])
     for (mask, a), (impl, _) in rng.sample(list(zip(zp, zres)), 6 if not thorough else 30):
@@ -1284,6 +1285,23 @@ def mont_specials(p=Q, nlimbs=6):
     return [(r * Rinv) % p for r in raws]
 
 
+def related_coeff_f12(rng, with_zero=True):
+    """Fq12 elements two of whose six Fq2 coefficients are EQUAL or OPPOSITE (each of the 15 pairs, both signs), alone and
+    together with one more coefficient equal to zero: where a shortcut keyed on a sum / difference of coefficients
+    vanishing (`c1 + c2 == 0`, `o.c2.is_zero()` after adding the halves) takes an operand for a sparse / scalar one"""
+    out = []
+    for i in range(6):
+        for j in range(i + 1, 6):
+            for sg in (1, -1):
+                for k in ([None] + [k for k in range(6) if k not in (i, j)] if with_zero else [None]):
+                    cs = [F2.rand(rng) for _ in range(6)]
+                    cs[j] = cs[i] if sg == 1 else F2.neg(cs[i])
+                    if k is not None:
+                        cs[k] = (0, 0)
+                    out.append(("c%d=%sc%d%s" % (j, "" if sg == 1 else "-", i, "" if k is None else ",c%d=0" % k), ((cs[0], cs[1], cs[2]), (cs[3], cs[4], cs[5]))))
+    return out
+
+
 def zero_pattern_f12(rng, patterns=None):
     """Fq12 elements for every zero/non-zero pattern of the six Fq2 coefficients (63 non-zero patterns)"""
     out = []
@@ -1363,6 +1381,16 @@ def check_C09(ck):
         cases.append(("fq12/mulby014", "fq12 mulby014 %s %s %s %s" % (S12(a), _f2s(c0), _f2s(c1), _f2s(c4)))); exp.append(S12(O.f12_mul(a, sparse)))
     gen12 = r12()
     gen6x = r6()
+    for (cl_, a) in related_coeff_f12(rng):
+        cases.append(("fq12/related-coefficients/mul", "fq12 mul %s %s" % (S12(a), S12(gen12)))); exp.append(S12(O.f12_mul(a, gen12)))
+        cases.append(("fq12/related-coefficients/mul-rev", "fq12 mul %s %s" % (S12(gen12), S12(a)))); exp.append(S12(O.f12_mul(gen12, a)))
+        if ",c" not in cl_:
+            cases.append(("fq12/related-coefficients/sq", "fq12 sq %s" % S12(a))); exp.append(S12(O.f12_mul(a, a)))
+            cases.append(("fq12/related-coefficients/inv", "fq12 inv %s" % S12(a))); exp.append("?inv12")
+            for half in (0, 1):        # the same relations inside one Fq6 half, as Fq6 operands
+                a6 = a[half]
+                cases.append(("fq6/related-coefficients/mul", "fq6 mul %s %s" % (S6(gen6x), S6(a6)))); exp.append(S6(O.f6_mul(gen6x, a6)))
+                cases.append(("fq6/related-coefficients/mul-rev", "fq6 mul %s %s" % (S6(a6), S6(gen6x)))); exp.append(S6(O.f6_mul(a6, gen6x)))
     for (mask, a) in zero_pattern_f12(rng):
         cases.append(("fq12/zero-pattern/mul", "fq12 mul %s %s" % (S12(a), S12(gen12)))); exp.append(S12(O.f12_mul(a, gen12)))
         cases.append(("fq12/zero-pattern/mul-rev", "fq12 mul %s %s" % (S12(gen12), S12(a)))); exp.append(S12(O.f12_mul(gen12, a)))
@@ -1818,6 +1846,14 @@ def sswu_preimages_of_x(g, tag, x):
     return out
 
 
+def small_roots_of_unity(K):
+    """roots of unity of order 3 and 6 of the base field (as elements of K): z with z^3 = 1 or z^6 = 1 but z != +-1 --
+    where a test `z^3 == 1` / `z^2 == 1` / `z^6 == 1` on a power of a denominator does not imply z == 1"""
+    w = next(pow(b, (Q - 1) // 3, Q) for b in range(2, 50) if pow(b, (Q - 1) // 3, Q) != 1)
+    vals = [w, w * w % Q, (-w) % Q, (-(w * w)) % Q]
+    return [K.from_int(v) for v in vals]
+
+
 def sswu_inputs_with_denominator(g, tag, z0s):
     """inputs u of the SSWU map whose Jacobian denominator -A'(Z^2 u^4 + Z u^2) equals a prescribed value z0
     (solve the quadratic Z^2 t^2 + Z t + z0/A' = 0 in t = u^2, then take square roots); both signs of u"""
@@ -1880,7 +1916,7 @@ def check_C14(ck):
             us += [(rng.randrange(Q), 0), (0, rng.randrange(Q))]
         # inputs whose SSWU output has a special Jacobian Z = -A'(Z_sswu^2 u^4 + Z_sswu u^2): Z = 1, -1, 2, -2, 2^64 ...
         # (a fast path of a later stage keyed on Z or Z^2 shows here)
-        zden = sswu_inputs_with_denominator(g, tag, (K.one, K.neg(K.one), K.from_int(2), K.neg(K.from_int(2)), K.from_int(1 << 64), K.from_int(4)) + ((((0, 1)), ((0, Q - 1))) if K is F2 else ()))
+        zden = sswu_inputs_with_denominator(g, tag, (K.one, K.neg(K.one), K.from_int(2), K.neg(K.from_int(2)), K.from_int(1 << 64), K.from_int(4)) + tuple(small_roots_of_unity(K)) + ((((0, 1)), ((0, Q - 1))) if K is F2 else ()))
         us += zden
         # inputs whose SSWU image is a finite RATIONAL KERNEL point of the isogeny (G1: the roots of XDEN are rational)
         kin = []
@@ -2079,6 +2115,7 @@ def check_C15(ck):
             z0s = [K.one, K.neg(K.one), K.from_int(2), K.from_int(1 << 64), K.from_int(3), K.from_int(Q - 2)] + [K.from_int(v) for v in ls[:4]]
         else:
             z0s = [K.one, K.neg(K.one), K.from_int(2), (0, 1), (0, Q - 1)] + [(k_, 0) for k_ in range(3, 24)] + [(0, k_) for k_ in range(2, 16)] + [(k_, k_) for k_ in range(1, 8)]
+        z0s = list(z0s) + small_roots_of_unity(K)      # denominators whose cube / sixth power is 1 without being 1
         dsp = sswu_inputs_with_denominator(g, tag, z0s)
         us += dsp if thorough else (dsp[:8] + dsp[8::max(1, len(dsp) // 16)])
         ck.classes["constructed:sswu-denominator-structured"] = len(dsp)
